@@ -136,6 +136,10 @@ def py_tree_spec(case, t):
                       F_FUTURE if case['imports'] or t.get('dict') else None))
     if py_star_free(orig) and not py_star_free(out):
         fails.append(('star', 'a registration call was inserted for `*`', F_STAR))
+    g = t.get('glue')
+    if g is not None and (g.get('error') or g['flags'] != g['ref_flags'] or not g['filename_ok']):
+        fails.append(('compile', 'autoprofile.run() compiles the rewritten tree differently from the program itself '
+                                 '(compiler/__future__ flags or filename): %s' % g, None))
     if t.get('compile_err') and not any(f[0] in ('future',) for f in fails):
         fails.append(('compile', 'the rewritten tree does not compile: %s' % t['compile_err'], None))
     return fails
@@ -186,7 +190,7 @@ def py_behaviour_spec(case, r):
             da, db = by_tag(a['out']), by_tag(b['out'])
             pre_ok = all(db[t] == da.get(t, [])[:len(db[t])] for t in db if t not in known_bad)
             fid = F_GENTHROW if pre_ok else None
-        elif full and 'shadow_profile' in tags and a['exc'] != 'TypeError' and b['exc'] == 'TypeError' \
+        elif full and 'shadow_profile' in tags and b['exc'] == 'TypeError' and '.other()' in err \
                 and "'str' object is not callable" in err and b['out'] == a['out'][:len(b['out'])]:
             # a class body defines a method named `profile` before another method: the added
             # `@profile` of the later method resolves to that method
@@ -417,6 +421,7 @@ def run(tier, seed):
         behaviour_construct_tags=tagc, behaviour_configs=cfgc,
         hypothesis_holds_on=dict(script_selected=n_full, prof_imports=n_imports, module_mode=n_module,
                                  clean_program=n_clean, registration_inserted=n_inserted,
+                                 compile_glue_checked=sum(1 for _c, t in trees if t.get('glue') and not t['glue'].get('error')),
                                  rewrite_raised=sum(1 for r in tres if r.get('tree') and r['tree'].get('err'))),
         translated=['line_profiler/autoprofile/profmod_extractor.py::_ast_get_imports_from_tree, '
                     '_find_modnames_in_tree_imports -> Gen/Select.v',
@@ -430,7 +435,9 @@ def run(tier, seed):
             'hand-modelled, tied by correspondence only: _profile_ast_tree, AstProfileTransformer, ImportFromTransformer, '
             'ast.fix_missing_locations (Ast/Transform.v)',
             'the converter Python AST -> AstLite (harness/drivers/c09_astconv.py)',
-            'compile()/exec with the original filename (autoprofile.run) is exercised by the behavioural runs only'])
+            'compile step of autoprofile.run(): not modelled; on every tree case the code object it hands to exec is captured '
+            '(the name exec shadowed in that module) and its filename and __future__ compiler flags are compared with a plain '
+            'compile of the file; execution itself is exercised by the behavioural runs'])
     res.assumptions = ['the program does not rebind the name `profile` in a scope where a function is defined or an import is registered '
                        '(the added decorator and registration calls resolve it by name; the class-body case is the known finding '
                        'C08-profile-name-captured-in-class-body)',
